@@ -56,7 +56,9 @@ def check(ctx):
             c = next(c for c in calls_in(p.ast) if last_attr(c) == sink)
             a = c.args[0] if c.args else None
             ds = rdefs.get(unparse(a), []) if isinstance(a, ast.Name) else []
-            ok = len(ds) == 1 and isinstance(ds[0].value, ast.Call) and (call_name(ds[0].value) or "") in ("os.read", "os.pread")
+            reads_ = [d for d in ds if isinstance(d.value, ast.Call) and (call_name(d.value) or "") in ("os.read", "os.pread")]
+            empties = [d for d in ds if isinstance(d.value, ast.Constant) and d.value.value in (b"", "")]
+            ok = len(reads_) == 1 and len(reads_) + len(empties) == len(ds)  # an empty constant (EOF stand-in) carries no data
             ctx.ob("R1", f"{RD}:{q}", f"`{short(c)}` forwards exactly the chunk returned by os.read/os.pread", ok, key=f"{q}|chunk-source", where=loc(c))
     qr = class_methods(rd.cls("QueueReader"))
     ifr = qr.get("is_fully_read")
@@ -112,13 +114,14 @@ def check(ctx):
 
     # ------------------------------------------------------------------ R3
     pl = ctx.repo.module(PL)
-    ir = pl.func("CommandPipeline.iterraw")
+    ir = flat(ctx, pl.func("CommandPipeline.iterraw"), depth=1, skip=("safe_readlines", "_drain_stdout", "_read_all", "stream_stderr", "_close_prev_procs", "_any_proc_running", "_procs_suspended", "_prev_procs_done", "safe_readable"))
     cfg = CFG(ir)
     # roles, not spellings: the last stage, its stdout reader, the spec
     idefs = df.all_defs(ir)
     PROC = names_bound_to_text(ir, "self.proc", idefs) | {"self.proc"}
     SPEC = names_bound_to_text(ir, "self.spec", idefs) | {"self.spec"}
     STDOUT = names_defined_by(ir, lambda v: isinstance(v, ast.Attribute) and v.attr == "stdout" and unparse(v.value) in PROC, idefs)
+    STDOUT = {c_ for n_ in STDOUT for c_ in alias_class(idefs, n_)}
     if not STDOUT:
         raise AnalysisError(f"{PL}:iterraw: no local bound to the last stage's stdout")
     waits = [n for n in cfg.nodes if n.kind == "stmt" and any(isinstance(c.func, ast.Attribute) and c.func.attr == "wait" and unparse(c.func.value) in PROC for c in calls_in(n.ast))]
@@ -170,8 +173,10 @@ def check(ctx):
     NL, CR, CRNL = byval(b"\n"), byval(b"\r"), byval(b"\r\n")
     ENC = names_defined_by(ts, lambda v: isinstance(v, ast.Call) and last_attr(v) == "get" and v.args and const_value(v.args[0]) == "XONSH_ENCODING", tdefs)
     ERR = names_defined_by(ts, lambda v: isinstance(v, ast.Call) and last_attr(v) == "get" and v.args and const_value(v.args[0]) == "XONSH_ENCODING_ERRORS", tdefs)
-    if not (RAWL and NL and CR and CRNL and ENC and ERR):
-        raise AnalysisError(f"{PL}:tee_stdout: roles not found (raw={RAWL} nl={NL} cr={CR} crnl={CRNL} enc={ENC} err={ERR})")
+    # a role is a name bound to the value or the literal itself
+    NL, CR, CRNL = NL | {repr(b"\n")}, CR | {repr(b"\r")}, CRNL | {repr(b"\r\n")}
+    if not (RAWL and ENC and ERR):
+        raise AnalysisError(f"{PL}:tee_stdout: roles not found (raw={RAWL} enc={ENC} err={ERR})")
     raw = [n for n in bcfg.nodes if n.kind == "stmt" and any(isinstance(c.func, ast.Attribute) and c.func.attr == "append" and unparse(c.func.value) in RAWL and c.args and unparse(c.args[0]) == var for c in calls_in(n.ast))]
     reas = [n for n in bcfg.nodes if n.kind == "stmt" and isinstance(n.ast, ast.Assign) and unparse(n.ast.targets[0]) == var]
     ok = len(raw) == 1 and all(bcfg.dominated(r, lambda m: m in raw) for r in reas)
@@ -239,7 +244,7 @@ def check(ctx):
     tcfg = CFG(ts)
     sdefs = df.all_defs(ts)
     # roles: the terminal target, and the echo flag = the one plain name that guards every write to it
-    TARGET = names_defined_by(ts, lambda v: unparse(v) in ("STDOUT_DISPATCHER.handle", "sys.stdout"), sdefs)
+    TARGET = names_defined_by(ts, lambda v: any(unparse(x) in ("STDOUT_DISPATCHER.handle", "sys.stdout") for x in ([v.body, v.orelse] if isinstance(v, ast.IfExp) else [v])), sdefs)
     writes = [n for n in tcfg.nodes if n.kind == "stmt" and any((call_name(c) or "").split(".")[0] in TARGET and last_attr(c) == "write" for c in calls_in(n.ast))]
     if not writes:
         raise AnalysisError(f"{PL}:tee_stdout: no write to the terminal target found")
@@ -249,10 +254,10 @@ def check(ctx):
     for STREAM in sorted(common)[:1]:
         sd = [d for d in sdefs.get(STREAM, []) if d.kind == "assign"]
         first = sd[0].value if sd else None
-        ok = first is not None and unparse(first) == "self.captured not in STDOUT_CAPTURE_KINDS" and all(isinstance(d.value, ast.Constant) and d.value.value is False for d in sd[1:])
+        ok = first is not None and "self.captured not in STDOUT_CAPTURE_KINDS" in [unparse(c_) for c_ in conjuncts(first)] and all(isinstance(d.value, ast.Constant) and d.value.value is False for d in sd[1:])
         ctx.ob("R6", f"{PL}:CommandPipeline.tee_stdout", "echoing is enabled only for non-capturing kinds and can only be switched off afterwards", ok, key="tee|stream-flag", detail=str([unparse(d.value) for d in sd]))
     sp = ctx.repo.module(SP)
-    mk = sp.func("_make_last_spec_captured")
+    mk = flat(ctx, sp.func("_make_last_spec_captured"), depth=2, skip=("_safe_pipe_properties", "from_pipe", "from_pty", "open_writer", "open_reader"))
     mcfg = CFG(mk)
     lastp = param_name(mk, 0, skip_self=False)
     CAPT = names_bound_to_text(mk, f"{lastp}.captured") | {f"{lastp}.captured"}
